@@ -370,29 +370,55 @@ class Gen:
             {"op": "AA?", "sport": 40000}]}
 
 
+def req_of(o):
+    """the request that makes harness/src/bin/c06.rs run the agent's real operation"""
+    op = o["op"]
+    if op == "AP+":
+        if o.get("via") == "elem":
+            return "POLICY_ELEM %d %d %d" % (o["lp"], o["ip"], o["port"])     # Redirector::start_internal
+        return "REDIRECT %d %d %d 1" % (o["ip"], o["port"], o["lp"])          # update_*_redirect_policy(true)
+    if op == "AP-":
+        return "REDIRECT %d %d %d 0" % (o["ip"], o["port"], o.get("lp", 3080))
+    if op == "AS":
+        return "SKIP %d" % o["pid"]
+    if op == "AA-":
+        return "REMOVE_AUDIT %d" % o["sport"]
+    if op == "AA?":
+        return "LOOKUP %d" % o["sport"]
+    return None
+
+
 def needs(scripts):
-    """encoder requests for the Rust harness"""
     req = set()
     for s in scripts:
         for o in s["ops"]:
-            if o["op"] == "AP+":
-                req.add("K %d %d" % (o["ip"], o["port"]))
-                req.add("PV %d" % o["lp"])
-            elif o["op"] == "AP-":
-                req.add("K %d %d" % (o["ip"], o["port"]))
-            elif o["op"] == "AS":
-                req.add("S %d" % o["pid"])
-            elif o["op"] in ("AA?", "AA-"):
-                req.add("AK %d" % o["sport"])
+            r = req_of(o)
+            if r:
+                req.add(r)
             elif o["op"] == "TC":
-                req.add("AK %d" % (o["sport"] & 0xFFFF))
+                req.add("LOOKUP %d" % (o["sport"] & 0xFFFF))     # the key the agent will ask for
     return sorted(req)
 
 
-def concretise(script, enc):
-    """-> (driver lines, Coq term of type `list line`).  Tasks, addresses and key/value images are
-    let-bound once per script (Coq reads a 32-bit literal in ~0.2 ms)."""
-    lines, terms = [], []
+def audit_key_of(enc, sport):
+    """the audit_map key BpfObject::lookup_audit(sport) was seen to ask for"""
+    for cmd, mp, k, _v, _fl in enc["LOOKUP %d" % sport]["ops"]:
+        if cmd == "lookup" and mp == "audit_map":
+            return k
+    return None
+
+
+MAPOPS = {("update", "policy_map"): ("P+", "EPolicyUpdate"), ("delete", "policy_map"): ("P-", "EPolicyDelete"),
+          ("update", "skip_process_ma"): ("S", "ESkipUpdate"), ("delete", "audit_map"): ("A-", "EAuditDelete"),
+          ("lookup", "audit_map"): ("A?", "EAuditLookup")}
+
+
+def concretise(script, enc, odd):
+    """-> (driver lines, Coq term of type `list line`, spans) where spans[i] = (first line, count) of op i.
+    An agent-level op becomes the bpf(2) map operations the agent's real code was recorded to issue.
+    Tasks, addresses and key/value images are let-bound once per script (Coq reads a 32-bit literal in
+    ~0.2 ms)."""
+    lines, terms, spans = [], [], []
     binds, names = [], {}
 
     def bind(prefix, text):
@@ -409,24 +435,34 @@ def concretise(script, enc):
 
     def ct(t):
         return bind("t", "T %d %d %d %d" % t)
+
+    def mapop(code, ctor, k, v):
+        if code in ("P+", "S"):
+            lines.append("%s %s %s" % (code, ws(k), ws(v)))
+            terms.append("LEvent (%s %s %s)" % (ctor, cw(k), cw(v)))
+        else:
+            lines.append("%s %s" % (code, ws(k)))
+            terms.append("LEvent (%s %s)" % (ctor, cw(k)))
     for o in script["ops"]:
         op = o["op"]
-        if op in ("AP+", "P+"):
-            k, v = (enc["K %d %d" % (o["ip"], o["port"])], enc["PV %d" % o["lp"]]) if op == "AP+" else (o["k"], o["v"])
-            lines.append("P+ %s %s" % (ws(k), ws(v)))
-            terms.append("LEvent (EPolicyUpdate %s %s)" % (cw(k), cw(v)))
-        elif op in ("AP-", "P-"):
-            k = enc["K %d %d" % (o["ip"], o["port"])] if op == "AP-" else o["k"]
-            lines.append("P- %s" % ws(k))
-            terms.append("LEvent (EPolicyDelete %s)" % cw(k))
-        elif op in ("AS", "S"):
-            k, v = (enc["S %d" % o["pid"]],) * 2 if op == "AS" else (o["k"], o["v"])
-            lines.append("S %s %s" % (ws(k), ws(v)))
-            terms.append("LEvent (ESkipUpdate %s %s)" % (cw(k), cw(v)))
-        elif op in ("AA?", "A?", "AA-", "A-"):
-            k = enc["AK %d" % o["sport"]] if op.startswith("AA") else o["k"]
-            lines.append("%s %s" % (op[-2:], ws(k)))
-            terms.append("LEvent (%s %s)" % ("EAuditLookup" if op.endswith("?") else "EAuditDelete", cw(k)))
+        first = len(lines)
+        r = req_of(o)
+        if r is not None:
+            for cmd, mp, k, v, flags in enc[r]["ops"]:
+                mo = MAPOPS.get((cmd, mp[:15]))
+                if mo is None or flags != 0:
+                    odd.append({"case": {"agent_op": r}, "model": "one map operation with flags 0 on the operation's own map",
+                                "impl": [cmd, mp, k, v, flags]})
+                    continue
+                mapop(mo[0], mo[1], k, v)
+        elif op == "P+":
+            mapop("P+", "EPolicyUpdate", o["k"], o["v"])
+        elif op == "P-":
+            mapop("P-", "EPolicyDelete", o["k"], None)
+        elif op == "S":
+            mapop("S", "ESkipUpdate", o["k"], o["v"])
+        elif op in ("A?", "A-"):
+            mapop(op, "EAuditLookup" if op == "A?" else "EAuditDelete", o["k"], None)
         elif op == "C4":
             port = o.get("raw_port")
             if port is None:
@@ -441,16 +477,19 @@ def concretise(script, enc):
             terms.append("LEvent (ETcpConnect %s %d %d %d %d)" % (ct(o["t"]), o["family"], o["sport"], o["daddr"], o["dport"]))
         else:
             raise ValueError(op)
-    return lines, "(%s %s)" % (" ".join(binds), clist(terms, "line"))
+        spans.append((first, len(lines) - first))
+    return lines, "(%s %s)" % (" ".join(binds), clist(terms, "line")), spans
 
 
 # ------------------------------------------------------------------------------------------------
 # the property itself, evaluated on what the C program and the Rust decoders were observed to do
 # ------------------------------------------------------------------------------------------------
-def property_failures(script, lines, outs, dumps, enc, decode, caps, proxy_ip, f4_stats):
-    """script: abstract ops (well formed: per thread, C4 then -- for TCP -- TC); outs[i], dumps[i] = the
-    driver's answer and (policy, skip, audit, local) dumps after op i; decode: 5 words -> the real
-    AuditEntry accessors' answers.  Returns failure dicts."""
+def property_failures(script, lines, spans, louts, ldumps, enc, decode, caps, proxy_ip, f4_stats):
+    """script: abstract ops (well formed: per thread, C4 then -- for TCP -- TC); spans[i] = the driver
+    lines of op i (an agent operation is replayed as the bpf(2) map operations the agent's real code
+    issued); louts / ldumps = the driver's answer and (policy, skip, audit, local) dumps after each line;
+    decode: 5 words -> what the real BpfObject::lookup_audit + AuditEntry accessors make of them.
+    Returns failure dicts."""
     fails = []
     listed = {}           # (ip, port) -> local_port, by the agent's own successful operations
     skipped = set()
@@ -461,7 +500,10 @@ def property_failures(script, lines, outs, dumps, enc, decode, caps, proxy_ip, f
     prev = ([], [], [], [])
 
     def fail(i, why, impl, f4=False):
-        fails.append({"case": {"script": lines, "line": i, "op": lines[i], "kind": script["kind"]},
+        li = min(spans[i][0], len(lines) - 1)
+        fails.append({"case": {"script": lines, "line": li, "op": lines[li] if lines else None, "agent_op": req_of(script["ops"][i]),
+                               "kind": script["kind"],
+                               "replay": "feed the script lines to ebpf_user/build/driver (user-space build of the unmodified ebpf_cgroup.c)"},
                       "why": why, "impl": impl, "f4": f4})
 
     def judge_record(i, sport, exp, words, where):
@@ -483,28 +525,34 @@ def property_failures(script, lines, outs, dumps, enc, decode, caps, proxy_ip, f
             where, sport, got, want, exp["uid"], exp["gid"]), {"decoded": got, "words": list(words)}, f4)
 
     for i, o in enumerate(script["ops"]):
-        op, out, cur = o["op"], outs[i], dumps[i]
+        first, cnt = spans[i]
+        op = o["op"]
+        out = louts[first + cnt - 1] if cnt else None
+        cur = ldumps[first + cnt - 1] if cnt else prev
+        done = cnt > 0 and all(louts[j] == [0] for j in range(first, first + cnt))   # the agent's map operations succeeded
         pol_b, skip_b, audit_b, local_b = prev
         pol_a, skip_a, audit_a, local_a = cur
         if op == "AP+":
-            if out == [0]:
+            if done:
                 listed[(o["ip"], o["port"])] = o["lp"]
         elif op == "AP-":
-            if out == [0]:
+            if done:
                 listed.pop((o["ip"], o["port"]), None)
         elif op == "AS":
-            if out == [0]:
+            if done:
                 skipped.add(o["pid"])
                 for k, f in flight.items():
                     if k[0] == o["pid"]:
                         f["skip_changed"] = True
         elif op == "AA-":
-            if out == [0]:
+            if done:
                 records.pop(o["sport"], None)
                 may_exist.discard(o["sport"])
         elif op == "AA?":
             p = o["sport"]
-            if p in records and records[p] is not None:
+            if out is None:
+                fail(i, "lookup_audit(%d) issued no audit_map lookup" % p, None)
+            elif p in records and records[p] is not None:
                 if out[0] != 0:
                     fail(i, "lookup_audit(%d) finds nothing although the record was written and the audit map stayed within capacity" % p, out)
                 else:
@@ -545,7 +593,7 @@ def property_failures(script, lines, outs, dumps, enc, decode, caps, proxy_ip, f
             t = o["t"]
             key = (t[0], t[1])
             p = o["sport"]
-            ak = enc["AK %d" % p]
+            ak = audit_key_of(enc, p)
             exp = pending.pop(key, None)
             f = flight.pop(key, {})
             new_keys = [e[:2] for e in audit_a if e[:2] not in [b[:2] for b in audit_b]]
@@ -591,6 +639,26 @@ def property_failures(script, lines, outs, dumps, enc, decode, caps, proxy_ip, f
 
 
 # ------------------------------------------------------------------------------------------------
+def build_map_object(ctx, geo):
+    """a BPF object file that carries only the four map definitions, with the geometry the C side
+    reports for the repository's current structs: BpfObject::from_ebpf_file loads it for real"""
+    order = (("policy", "policy_map"), ("skip", "skip_process_map"), ("audit", "audit_map"), ("local", "local_map"))
+    src = ["struct bpf_map_def { unsigned int type, key_size, value_size, max_entries, map_flags; };"]
+    for n, name in order:
+        m = geo[n]
+        src.append("struct bpf_map_def %s __attribute__((section(\"maps\"), used)) = { %d, %d, %d, %d, 0 };" % (
+            name, m["type"], m["key_size"], m["value_size"], m["max_entries"]))
+    src.append("char _license[] __attribute__((section(\"license\"), used)) = \"GPL\";")
+    c = os.path.join(ctx.scratch, "maps_only.c")
+    o = os.path.join(ctx.scratch, "maps_only.o")
+    with open(c, "w") as f:
+        f.write("\n".join(src) + "\n")
+    rc, so, se = vplib.sh(["clang", "-target", "bpf", "-O2", "-c", c, "-o", o], timeout=120)
+    if rc != 0:
+        raise RuntimeError("clang -target bpf failed: " + se[-1000:])
+    return o
+
+
 def run(ctx):
     vplib.gen_consts(ctx)
     sys.path.insert(0, os.path.join(vplib.VERIF, "tools"))
@@ -602,21 +670,27 @@ def run(ctx):
     bins = vplib.cargo_build(ctx, "harness", ["c06"])
     rng = ctx.rng
     disagreements, failures = [], []
-
-    def rust(reqs):
-        out = [l[3:] for l in vplib.run_lines(bins["c06"], reqs) if l.startswith("@@ ")]
-        if len(out) != len(reqs):
-            raise RuntimeError("c06 harness answered %d of %d requests" % (len(out), len(reqs)))
-        return [json.loads(x) for x in out]
+    names = ("policy", "skip", "audit", "local")
 
     try:
         # ---------------- map geometry: C structs vs Rust arrays vs model ----------------
         info = json.loads(vplib.run_lines(driver, ["INFO"])[0])[0]
         geo = {n: dict(zip(("type", "key_size", "value_size", "max_entries"), info[4 * i:4 * i + 4]))
-               for i, n in enumerate(("policy", "skip", "audit", "local"))}
+               for i, n in enumerate(names)}
         t_hash, t_lru = info[16], info[17]
         caps = {n: geo[n]["max_entries"] for n in geo}
-        probe = rust(["K 1 1", "S 1", "AK 1", "AE 0 0 0 0 0 0 1 2 3 4"])
+        mapobj = build_map_object(ctx, geo)
+
+        def rust(reqs):
+            out = [l[3:] for l in vplib.run_lines(bins["c06"], ["LOAD " + mapobj] + reqs) if l.startswith("@@ ")]
+            if len(out) != len(reqs) + 1:
+                raise RuntimeError("c06 harness answered %d of %d requests" % (len(out), len(reqs) + 1))
+            if json.loads(out[0]) != "ok":
+                raise vplib.Violation("BpfObject::from_ebpf_file refuses an object that carries only the four maps: " + out[0],
+                                      {"kind": "harness-build", "detail": out[0]}, no_input=True)
+            return [json.loads(x) for x in out[1:]]
+
+        probe = rust(["K 1 1", "S 1", "AK 1"])
         want_geo = {"policy": (t_hash, 4 * len(probe[0]), 4 * len(probe[0]), consts["ebpf_policy_map_max_entries"]),
                     "skip": (t_hash, 4 * len(probe[1]), 4 * len(probe[1]), consts["ebpf_skip_process_map_max_entries"]),
                     "audit": (t_lru, 4 * len(probe[2]), 4 * 5, consts["ebpf_audit_map_max_entries"]),
@@ -627,10 +701,11 @@ def run(ctx):
                 disagreements.append({"case": {"map": n, "what": "type/key size/value size/max_entries"},
                                       "model": want_geo[n], "impl": got})
         klen = {n: geo[n]["key_size"] // 4 for n in geo}
+        klens = [klen[n] for n in names]
 
         # ---------------- scripts ----------------
         g = Gen(rng, consts, caps)
-        nnormal, nburst, nill = (1700, 3, 250) if ctx.quick else (14000, 12, 2500)
+        nnormal, nburst, nill = (1200, 2, 200) if ctx.quick else (9000, 10, 1500)
         scripts = [g.f4_witness(1000, 0), g.f4_witness(0, 1000), g.f4_witness(1000, 1000), g.f4_witness(0, 0)]
         scripts += [g.normal() for _ in range(nnormal)]
         for _ in range(nburst):
@@ -646,13 +721,23 @@ def run(ctx):
                         if "t" in o:
                             o["t"] = tuple(o["t"])
                     scripts.insert(0, s)
+        for s in scripts:
+            for o in s["ops"]:
+                if o["op"] == "AP+" and "via" not in o:
+                    o["via"] = rng.choice(("elem", "redirect"))    # start-up path or mode-change path
         reqs = needs(scripts)
         enc = dict(zip(reqs, rust(reqs)))
-        conc = [concretise(s, enc) for s in scripts]
+        odd = []
+        conc = [concretise(s, enc, odd) for s in scripts]
+        seen_odd = set()
+        for d in odd:
+            if d["case"]["agent_op"] not in seen_odd:
+                seen_odd.add(d["case"]["agent_op"])
+                disagreements.append(d)
 
         # ---------------- implementation: the unmodified C program ----------------
         all_lines = []
-        for lines, _ in conc:
+        for lines, _t, _sp in conc:
             all_lines.append("RESET")
             all_lines += lines
         raw = vplib.run_lines(driver, all_lines, timeout=1200)
@@ -660,7 +745,7 @@ def run(ctx):
             raise RuntimeError("driver answered %d of %d lines" % (len(raw), len(all_lines)))
         impl = []
         pos = 0
-        for lines, _ in conc:
+        for lines, _t, _sp in conc:
             pos += 1
             per = []
             for _l in lines:
@@ -673,7 +758,7 @@ def run(ctx):
         # ---------------- model: the same scripts by vm_compute ----------------
         prelude = ("Definition T a b c d := {| tgid := a; tid := b; uid := c; gid := d |}.\n"
                    "Definition SA a b c := {| sa_ip := a; sa_port := b; sa_proto := c |}.\n")
-        exprs = ["run_script_d %s" % term for _, term in conc]
+        exprs = ["run_script_d %s" % term for _l, term, _sp in conc]
         order = sorted(range(len(exprs)), key=lambda i: -len(exprs[i]))   # spread the heavy scripts over the shards
         nshard = 12
         buckets = [[] for _ in range(nshard)]
@@ -690,11 +775,9 @@ def run(ctx):
                 model[i] = res[bi * shard + j]
         ctx.log("model: %d scripts evaluated" % len(exprs))
 
-        names = ("policy", "skip", "audit", "local")
-        klens = [klen[n] for n in names]
         agree = 0
         located = 0
-        for si, (s, (lines, term), per, m) in enumerate(zip(scripts, conc, impl, model)):
+        for si, (s, (lines, term, _sp), per, m) in enumerate(zip(scripts, conc, impl, model)):
             chain = chain_digests(per, klens)
             if (chain[-1] if chain else 7) == m:
                 agree += 1
@@ -718,9 +801,43 @@ def run(ctx):
             disagreements.append({"case": {"script": lines, "kind": s["kind"], "first_differing_line": bad.get("line")},
                                   "model": bad, "impl": "ebpf_user driver (unmodified ebpf_cgroup.c)"})
 
-        # ---------------- the Rust side: encoders, decoders, strings ----------------
-        # (1) encoders vs the model's
-        kreqs = [r for r in reqs if r.startswith("K ")][:400] + ["K %d %d" % (rng.randint(0, M32), rng.randint(0, 65535)) for _ in range(100)] \
+        # ---------------- the Rust side: agent operations, encoders, decoders, strings ----------------
+        # (0) the map operations the agent's real functions issue vs the model's agent_* events
+        areqs = [r for r in reqs if not r.startswith("LOOKUP")][:600] + [r for r in reqs if r.startswith("LOOKUP")][:200]
+        for ip, port, lp in [(0, 0, 0), (M32, 65535, 65535), (0x10813FA8, 80, 3080), (0x0100007F, 256, 255)] + \
+                [(rng.randint(0, M32), rng.randint(0, 65535), rng.randint(0, 65535)) for _ in range(40)]:
+            areqs += ["POLICY_ELEM %d %d %d" % (lp, ip, port), "REDIRECT %d %d %d 1" % (ip, port, lp), "REDIRECT %d %d %d 0" % (ip, port, lp)]
+        areqs += ["SKIP %d" % x for x in (0, 1, M32, rng.randint(0, M32))] + ["REMOVE_AUDIT %d" % x for x in (0, 1, 255, 256, 65535)] \
+            + ["LOOKUP %d" % x for x in (0, 1, 255, 256, 65535)]
+        extra = [r for r in areqs if r not in enc]
+        enc2 = dict(enc)
+        enc2.update(zip(extra, rust(extra)))
+
+        def agent_term(r):
+            f = r.split()
+            a = [int(x) for x in f[1:]]
+            if f[0] == "POLICY_ELEM":
+                return "agent_policy_add %d %d %d" % (a[1], a[2], a[0])
+            if f[0] == "REDIRECT":
+                return ("agent_policy_add %d %d %d" % (a[0], a[1], a[2])) if a[3] else ("agent_policy_remove %d %d" % (a[0], a[1]))
+            if f[0] == "SKIP":
+                return "agent_skip %d" % a[0]
+            if f[0] == "REMOVE_AUDIT":
+                return "agent_remove_audit %d" % a[0]
+            return "EAuditLookup (audit_key_from_source_port %d)" % a[0]
+        amodel = []
+        for i in range(0, len(areqs), 300):
+            amodel += vplib.coq_eval(ctx, "From GPA Require Import Ebpf.", [clist([agent_term(r) for r in areqs[i:i + 300]], "event")], name="agent%d" % i)[0]
+        ctor = {"EPolicyUpdate": ("update", "policy_map"), "EPolicyDelete": ("delete", "policy_map"), "ESkipUpdate": ("update", "skip_process_ma"),
+                "EAuditDelete": ("delete", "audit_map"), "EAuditLookup": ("lookup", "audit_map")}
+        for r, ev in zip(areqs, amodel):
+            cmd, mp = ctor[ev[0]]
+            want = [[cmd, mp, list(ev[1]), list(ev[2]) if len(ev) > 2 else [], 0]]
+            got = [[c, m[:15], k, v, fl] for c, m, k, v, fl in enc2[r]["ops"]]
+            if got != want:
+                disagreements.append({"case": {"agent_op": r}, "model": want, "impl": got})
+        # (1) the ebpf_obj constructors vs the model's encoders
+        kreqs = ["K %d %d" % (rng.randint(0, M32), rng.randint(0, 65535)) for _ in range(100)] \
             + ["K %d %d" % (ip, p) for ip in (0, M32, 0x10813FA8) for p in (0, 1, 255, 256, 65535, 80, 32526)]
         pvreqs = ["PV %d" % p for p in (0, 1, 255, 256, 3080, 65535)] + ["PV %d" % rng.randint(0, 65535) for _ in range(40)]
         sreqs = ["S %d" % p for p in (0, 1, M32)] + ["S %d" % rng.randint(0, M32) for _ in range(40)]
@@ -736,23 +853,21 @@ def run(ctx):
         for r, a, b in zip(ereqs, eimpl, emodel):
             if a != b:
                 disagreements.append({"case": {"encoder": r}, "model": b, "impl": a})
-        # (2) decoders: every audit value the C program produced, plus arbitrary word arrays
+        # (2) decoding: every audit value the C program produced, plus arbitrary word arrays, through the
+        #     real BpfObject::lookup_audit and the AuditEntry accessors
         vals = set()
         for per in impl:
-            for _a, _r, dmp in per:
+            for _a, o_raw, dmp in per:
                 for e in dmp[2]:
-                    vals.add(tuple(e[2:]))
-        for per, s in zip(impl, scripts):
-            for (o_abs, o_raw, _d), o in zip(per, s["ops"]):
-                if o["op"] in ("AA?", "A?") and o_raw and o_raw[0] == 0 and len(o_raw) == 6:
+                    vals.add(tuple(e[klen["audit"]:]))
+                if len(o_raw) == 6 and o_raw[0] == 0:
                     vals.add(tuple(o_raw[1:]))
         vals = {v for v in vals if len(v) == 5}
         produced = len(vals)
         for _ in range(300):
             vals.add(tuple(rng.choice([0, 1, 0x7FFFFFFF, 0x80000000, M32, rng.randint(0, M32), rng.randint(0, 65535), 0x10000 + rng.randint(0, 65535)]) for _ in range(5)))
         vals = sorted(vals)
-        fmap = [consts["rust_lookup_audit_src_" + n] for n in ("logon_id", "process_id", "is_admin", "destination_ipv4", "destination_port")]
-        dimpl = rust(["AE %s %s" % (" ".join(map(str, v)), " ".join(map(str, fmap))) for v in vals])
+        dimpl = [d["entry"] for d in rust(["DECODE %s" % " ".join(map(str, v)) for v in vals])]
         decode = dict(zip(vals, dimpl))
         dexprs = []
         for i in range(0, len(vals), 500):
@@ -763,7 +878,7 @@ def run(ctx):
         for v, a, b in zip(vals, dimpl, dmodel):
             b2 = [b[0], b[1], b[2], b[3], b[4], ".".join(str(x) for x in b[5]), b[6]]
             if a != b2:
-                disagreements.append({"case": {"decode": list(v), "field_map": fmap}, "model": b2, "impl": a})
+                disagreements.append({"case": {"lookup_audit_on_value": list(v)}, "model": b2, "impl": a})
         # (3) ip_to_string / string_to_ip
         ips = [0, 1, 255, 256, 65535, 65536, 0x01000000, M32, 0x7F000001, 0x0100007F, 0x10813FA8, 0xFEA9FEA9] \
             + [rng.randint(0, M32) for _ in range(300)] + [rng.choice([0, 9, 10, 99, 100, 199, 200, 255]) << (8 * rng.randrange(4)) for _ in range(60)]
@@ -778,16 +893,16 @@ def run(ctx):
         for _ in range(100):
             hostile.append(".".join(rng.choice(["0", "1", "9", "10", "99", "100", "255", "256", "+7", "", "007", "300", "-1", " 5"]) for _ in range(rng.choice([4, 4, 4, 3, 5]))))
         strs = i2s + hostile
-        s2i = rust(["S2I %s" % s.encode("utf-8").hex() for s in strs])
+        s2i = rust(["S2I %s" % x.encode("utf-8").hex() for x in strs])
         smodel = vplib.coq_eval(ctx, "From GPA Require Import Ebpf.", [
             "map ip_to_string %s" % clist([str(x) for x in ips], "N"),
-            "map string_to_ip %s" % clist([vplib.cb(s) for s in strs], "(list N)")], name="str")
+            "map string_to_ip %s" % clist([vplib.cb(x) for x in strs], "(list N)")], name="str")
         for ip, a, b in zip(ips, i2s, smodel[0]):
             if list(a.encode("utf-8")) != b:
                 disagreements.append({"case": {"ip_to_string": ip}, "model": bytes(b).decode("latin1"), "impl": a})
-        for s, a, b in zip(strs, s2i, smodel[1]):
+        for x, a, b in zip(strs, s2i, smodel[1]):
             if a != b:
-                disagreements.append({"case": {"string_to_ip": s}, "model": b, "impl": a})
+                disagreements.append({"case": {"string_to_ip": x}, "model": b, "impl": a})
         for ip, a, back in zip(ips, i2s, s2i):
             if a != dotted(ip):
                 failures.append({"case": {"ip_to_string": ip}, "why": "ip_to_string(%#x) = %r, the address is %s" % (ip, a, dotted(ip)), "impl": a})
@@ -797,14 +912,12 @@ def run(ctx):
         # ---------------- the property on the implementation's observed behaviour ----------------
         f4_stats = {"seen": 0, "protected": 0, "protected_uid_ne_gid": 0}
         judged = 0
-        for s, (lines, _), per in zip(scripts, conc, impl):
+        for s, (lines, _t, spans), per in zip(scripts, conc, impl):
             if not s["wf"]:
                 continue
             judged += 1
-            failures += property_failures(s, lines, [p[1] for p in per], [p[2] for p in per], enc, decode, caps,
+            failures += property_failures(s, lines, spans, [p[1] for p in per], [p[2] for p in per], enc, decode, caps,
                                           consts["proxy_agent_ip_network_byte_order"], f4_stats)
-        # layout: the agent's key for a destination must be what the C program looks up -- observed end to end
-        # above (a protected connect is only redirected if the Rust-encoded key matches the C struct image).
     finally:
         try:
             os.replace(driver, driver_final)
@@ -821,32 +934,35 @@ def run(ctx):
         return None
 
     total_lines = sum(len(p) for p in impl)
-    nenc, ndec, nstr = len(ereqs), len(vals), len(ips) + len(strs)
+    nenc, ndec, nstr, nagent = len(ereqs), len(vals), len(ips) + len(strs), len(areqs)
     wi = next(i for i, s in enumerate(scripts) if s["kind"] == "f4_witness")
     sample_i = next((i for i, s in enumerate(scripts) if s["kind"] == "normal" and len(conc[i][0]) > 6), 0)
     ctx.coverage.update({
-        "evaluations": total_lines + nenc + ndec + nstr,
-        "distinct_nontrivial": f4_stats["protected"] + len({tuple(l) for l, _ in conc}),
+        "evaluations": total_lines + nenc + ndec + nstr + nagent,
+        "distinct_nontrivial": f4_stats["protected"] + len({tuple(c[0]) for c in conc}),
         "traces_validated_against_impl": agree,
-        "rule": "scripts of P+/P-/S/A?/A-/C4/TC/TCX lines run by the unmodified ebpf_cgroup.c (user-space build) and by the model; "
-                "outputs and a digest of each of the four map dumps compared after EVERY line, full dumps at the end of every script; "
-                "1-6 processes x 1-3 threads, uid/gid independently from {0,1000,65534,2^32-1}, the three protected endpoints and near misses "
-                "(UDP, other port, byte-swapped port, other ip, the proxy itself, random), uniform interleavings with agent operations in between, "
-                "bursts at cap-1/cap/cap+1/cap+5 of local_map and audit_map, policy/skip map capacity, ill-formed scripts (raw sockets, wrong key sizes, "
-                "non-TCP policy keys, changing credentials); Rust encoders/decoders/ip strings on the C side's byte images and on boundary/hostile values. "
+        "rule": "scripts of P+/P-/S/A?/A-/C4/TC/TCX lines run by the unmodified ebpf_cgroup.c (user-space build) and by the model; the agent's "
+                "operations in a script are the bpf(2) map operations its REAL functions (update_policy_elem_bpf_map, update_redirect_policy, "
+                "update_skip_process_map, remove_audit_map_entry, lookup_audit on a BpfObject loaded by from_ebpf_file) were recorded to issue; "
+                "a rolling digest absorbs the outputs and the dump of all four maps after EVERY line and is compared per script (first differing line "
+                "located on mismatch); 1-6 processes x 1-3 threads, uid/gid independently from {0,1000,65534,2^32-1}, the three protected endpoints and "
+                "near misses (UDP, other port, byte-swapped port, other ip, the proxy itself, random), uniform interleavings with agent operations in "
+                "between, bursts at cap-1/cap/cap+1/cap+5 of local_map and audit_map, policy/skip map capacity, ill-formed scripts (raw sockets, wrong key "
+                "sizes, non-TCP policy keys, changing credentials); lookup_audit + AuditEntry accessors on every audit value the C side produced and on "
+                "boundary values; ebpf_obj constructors, ip_to_string/string_to_ip on boundary and hostile values. "
                 "non-trivial = protected (redirected) connects judged by the property predicate + distinct scripts",
         "exhaustive": False,
         "samples": [
             {"script": conc[sample_i][0][:12], "impl_first_outputs": [p[1] for p in impl[sample_i][:12]],
              "impl_digest": chain_digests(impl[sample_i], klens)[-1], "model_digest": model[sample_i]},
-            {"f4_witness_script": conc[wi][0], "impl_outputs": [p[1] for p in impl[wi]],
-             "decoded_by_rust": decode.get(tuple(impl[wi][3][1][1:])) if len(impl[wi]) > 3 and len(impl[wi][3][1]) == 6 else None},
-            {"decode": list(vals[len(vals) // 2]), "impl": dimpl[len(vals) // 2]},
+            {"witness_script": conc[wi][0], "impl_outputs": [p[1] for p in impl[wi]],
+             "decoded_by_lookup_audit": decode.get(tuple(impl[wi][3][1][1:])) if len(impl[wi]) > 3 and len(impl[wi][3][1]) == 6 else None},
+            {"agent_op": areqs[0], "recorded_map_operations": enc2[areqs[0]]["ops"], "model_event": str(amodel[0])},
         ],
         "input_distribution": dict(g.stats, scripts=len(scripts), script_lines=total_lines, scripts_judged_by_property=judged,
                                    protected_connects=f4_stats["protected"], protected_connects_uid_ne_gid=f4_stats["protected_uid_ne_gid"],
                                    f4_pattern_observed=f4_stats["seen"], audit_values_produced_by_c=produced, decoder_cases=ndec,
-                                   encoder_cases=nenc, string_cases=nstr),
+                                   encoder_cases=nenc, agent_operation_cases=nagent, string_cases=nstr),
         "map_geometry": geo,
         "uid_shift_sites": {"connect4": shifts[0], "tcp_connect": shifts[1]},
         "f4_class_empty_full_strength_theorem_live": shifts == (0, 0),
@@ -859,11 +975,11 @@ def run(ctx):
         "what connect4 left in the ctx; ctx->user_port is the 16-bit sin_port zero-extended",
         "the BPF verifier, the kernel's approximate LRU (may evict earlier than exact LRU), IPv6 and Windows are outside the model; "
         "a connect4 whose tcp_connect never happens leaves a stale pending entry (modelling boundary, not judged)",
-        "BpfObject::lookup_audit itself needs a loaded kernel object; its AuditEntry literal is tied by tools/gen_consts.py "
-        "(field map re-read from the source and fed to both the model and the harness), the conversions it calls are the real ones",
+        "the agent's BpfObject methods run for real on an aya::Ebpf loaded from an object that carries only the map definitions; bpf(2) is answered "
+        "in-process by harness/src/bin/c06.rs (it records the map operations; their kernel-side effect is computed by ebpf_user/maps.c)",
     ]
     if shifts == (0, 0) and f4_known:
         ctx.notes.append("ebpf_cgroup.c takes the low half at both sites (F4 repaired) while known_findings still lists F4 as known; "
                          "nothing is suppressed, C06_redirect_and_record is full strength")
     verdict(ctx, proofs_ok, detail, disagreements, failures, known_filter,
-            corr_name="Ebpf.run_script vs ebpf_user/driver (unmodified ebpf_cgroup.c) and the agent's ebpf_obj encoders/decoders")
+            corr_name="Ebpf.run_script vs ebpf_user/driver (unmodified ebpf_cgroup.c) and the agent's BpfObject operations / ebpf_obj encoders / decoders")
